@@ -24,9 +24,11 @@ def TExpr.isStar : TExpr → Bool
 `parseAstE p fuel e` visits (declared names are followed into their definitions; `top` = "`e` is the
 definition of a declared type", the only position where a struct literal is admitted).
 * `fuel` suffices for the go/ast model to resolve `e` completely (no recursive types within `fuel`);
-* every slice / map literal mentions at most ONE declared type (`quals ≤ 1`): then
-  `strings.Replace(t.String(), pkgDot, "", 1)` removes every qualifier (finding `parser-typename-qualification`
-  is the violation of this clause);
+* for the ORIGINAL go/types parser only (`p.dropsFirstQualOnly`): every slice / map literal mentions at most ONE
+  declared type (`quals ≤ 1`): then `strings.Replace(t.String(), pkgDot, "", 1)` removes every qualifier
+  (finding `parser-typename-qualification` is the violation of this clause). For the parser as it is since
+  `fix: the go/types parser left package qualifiers in literal type names` (`strings.Replace(…, -1)`, flag off)
+  the clause is vacuous: any number of declared types may be mentioned;
 * no struct literal except as the definition of a declared type (anonymous struct fields/elements: go/types
   gives `typn = "struct{…}"`, `pkg = ""`; go/ast gives `typn = ""`, `pkg = <package>`);
 * no declared type is defined as a pointer (`type P *T`: go/ast composes `[]*P`, go/types prints `[]P`);
@@ -43,8 +45,8 @@ def AgreeOK (p : Pkg) : Nat → Bool → TExpr → Bool
        | some d => AgreeOK p f true d
        | none => true)
     | .star x => !top && !x.isStar && AgreeOK p f false x
-    | .slice x => decide (quals p x ≤ 1) && AgreeOK p f false x
-    | .map k v => decide (quals p k + quals p v ≤ 1) && AgreeOK p f false k && AgreeOK p f false v
+    | .slice x => (!p.dropsFirstQualOnly || decide (quals p x ≤ 1)) && AgreeOK p f false x
+    | .map k v => (!p.dropsFirstQualOnly || decide (quals p k + quals p v ≤ 1)) && AgreeOK p f false k && AgreeOK p f false v
     | .struct fs =>
       top &&
       (match f with
